@@ -23,7 +23,7 @@ def run(ctx):
         import random
         random.Random(ctx.seed).shuffle(sessions)
         sessions = sessions[:8000 if q else 80000]
-    evs, _, _ = run_harness(ctx, "splicer", "TestVerifSplice", {"sessions": sessions, "random": 500 if q else 5000})
+    evs, _, _ = run_harness(ctx, "splicer", "TestVerifSplice", {"sessions": sessions, "random": 500 if q else 5000, "served": 300 if q else 3000}, timeout=3000)
     bad, r2 = vlib.judge(ctx, "T_Splice", "T_Splice.cfg", evs)
     sess = {}
     cur = None
@@ -45,7 +45,8 @@ def run(ctx):
         res.sample({"sources": s["sources"], "failed": s["failed"],
                     "calls": [{k: c[k] for k in ("on", "q", "start", "items", "done")} for c in s["calls"]]})
     res.extra["sessions_from_tlc"] = len(sessions)
-    res.assumptions = ["sources are synthetic paged containers honouring the Container contract; NewSplicer over served actors is exercised by the ui driver"]
+    res.extra["sessions_through_NewSplicer"] = sum(1 for e in evs if e["ev"] == "reset" and e.get("served"))
+    res.assumptions = ["sources are synthetic paged containers honouring the Container contract, and for a share of the sessions paged collections served by the simulator and opened with NewSplicer (random latencies, the source listed first often the slowest)"]
     for b in bad:
         s = sess[b["sid"]]
         e = evs[b["line"] - 1]
